@@ -4,6 +4,7 @@ import Nstd.Future.ProtoLemmas
 import Nstd.Future.Witness
 import Nstd.Future.Safety
 import Nstd.Future.LiveWorker
+import Nstd.Future.Handshake
 /-
   Property C10 — "every Future call runs exactly once and join waits for its result".
 
@@ -82,6 +83,44 @@ theorem call_record_freed_once_and_alive {cfg : Config} {s : State} (h : Reach c
     (s.fault = none ∨ s.fault = some "no pool") :=
   ⟨call_record_freed_once h c, fun _ _ _ hth hfr hp => exec_record_alive h hth hfr hp, no_fault_partial h⟩
 
+/-! ## Completion handshake (full model, every schedule, both code variants; each future used by one client thread) -/
+
+/-- `join()` (also inside the destructor, the result conversion and a re-`start`) returns only after the call's body has
+    run, its result and state have been published — and then the body has run exactly once.  `joinClr f` is the point
+    right after `_sig.wait(); _sig.reset();`. -/
+theorem join_after_completion {cfg : Config} {s : State} (hwf : cfg.WellFormed) (h : Reach cfg s)
+    {t : Tid} {f c : Nat} (htop : topFrame s t = some (.joinClr f)) (hc : (s.futs f).curCall = some c) :
+    s.completed c = true ∧ s.execCount c = 1 :=
+  join_after_completion_once hwf h htop hc
+
+/-- A join that returns immediately (`_joinable == false`) also means the latest call has completed. -/
+theorem join_without_wait_means_completed {cfg : Config} {s : State} (hwf : cfg.WellFormed) (h : Reach cfg s)
+    {f c : Nat} (hj : (s.futs f).joinable = false) (hc : (s.futs f).curCall = some c) : s.completed c = true :=
+  joined_means_completed hwf h hj hc
+
+/-- The value obtained through the result conversion is the return value of the started function on the arguments
+    given to `start` (the model's body returns `a * 100 + b`, as the harness body does). -/
+theorem result_is_return_value {cfg : Config} {s : State} (hwf : cfg.WellFormed) (h : Reach cfg s)
+    {t : Tid} {f c : Nat} {r : CallRec} (htop : topFrame s t = some (.evResult f)) (hf : f < 8)
+    (hc : (s.futs f).curCall = some c) (hr : s.everCalls c = some r) : (s.futs f).result = some (r.a * 100 + r.b) :=
+  Nstd.Future.result_is_return_value hwf h htop hf hc hr
+
+/-- After join: `isFinished()` or `isAborted()` holds, and `isAborted()` only if `abort()` was requested since the start. -/
+theorem state_after_join {cfg : Config} {s : State} (hwf : cfg.WellFormed) (h : Reach cfg s)
+    {f c : Nat} (hj : (s.futs f).joinable = false) (hc : (s.futs f).curCall = some c) :
+    ((s.futs f).state = 2 ∨ (s.futs f).state = 3) ∧ ((s.futs f).state = 3 → (s.futs f).abortReq = true) :=
+  Nstd.Future.state_after_join hwf h hj hc
+
+/-- non-vacuity: a well-formed configuration (two clients on different futures) -/
+example : hsCfg.WellFormed := by
+  constructor
+  · intro i j si sj hi hj hij
+    rcases i with _ | _ | i <;> rcases j with _ | _ | j <;> simp [hsCfg] at hi hj <;>
+      first
+        | exact absurd rfl hij
+        | (subst hi; subst hj; decide)
+  · decide
+
 /-! ## Liveness, deadlock-freedom form (full model of the REPAIRED code) -/
 
 /-- No lost wake-up on the worker side, for every schedule, any number of threads, any capacity: whenever a job is
@@ -148,5 +187,32 @@ theorem d17_start_never_returns_witness : ∃ sched s, runSched (State.init d17b
     rw [hr] at h
     simp only [Bool.and_eq_true] at h
     exact ⟨d17bSched, s, hr, h.1.1.1, h.1.1.2, h.1.2, h.2⟩
+
+/-
+OPEN: join_eventually   (liveness under weak fairness, full model of the repaired code)
+
+  theorem join_eventually (hrep : cfg.repaired = true) (hwf : cfg.WellFormed)
+      (σ : Nat → Tid) (run : Nat → State) (h0 : run 0 = State.init cfg)
+      (hstep : ∀ n, (∃ o, step (run n) (σ n) = some (run (n+1), o)) ∨ (step (run n) (σ n) = none ∧ run (n+1) = run n))
+      (hfair : ∀ t n, (∀ m ≥ n, enabled (run m) t = true) → ∃ m ≥ n, σ m = t) :
+      ∀ n t f, topFrame (run n) t = some (.join f) → ∃ m ≥ n, topFrame (run m) t ≠ some (.join f) ∧
+                 (∀ k, n ≤ k → k < m → True) ∧ (joining thread has left join(): its stack below `join f` is on top)
+
+  and its deadlock-freedom core
+  theorem no_stuck (hrep : cfg.repaired = true) (h : Reach cfg s) (hl : ∃ t th, s.threads t = some th ∧ th.finished = false) :
+      ∃ t, enabled s t = true
+
+  Proved instead (this file): `no_stuck_worker_side` (full model: a queued job + a live worker ⇒ some thread can step),
+  `no_stuck_producer_side` when present (a free slot + a sleeper on the dequeued signal + a live worker ⇒ some thread can
+  step), the Signal-level progress lemmas of Progress.lean, the abstract-protocol theorems `fastsignal_set_not_lost`,
+  `no_stuck_protocol` for any number of threads, and the negation witnesses for the original code.
+  Missing for `no_stuck`: that a queued job always has or gets a worker (the spawn / retire arithmetic over
+  `_pushedJobs`, `_processedJobs`, `_threadCount` with stale reads), the main thread's shutdown accounting
+  (`_threadCount` terminate jobs reach exactly the live workers) and the join side (an uncompleted call is queued,
+  held by a popper or being executed).  Missing for `join_eventually` beyond `no_stuck`: a ranking argument under
+  fairness (CAS retry loops and the spin lock are lock-free, not wait-free).
+  Evidence that is NOT a proof: no deadlock in any controlled-scheduler run of the real code and none in the exhaustive
+  micro-step exploration of the model for the small configurations listed in the evidence file.
+-/
 
 end Nstd.Future.C10
